@@ -132,7 +132,9 @@ func (z *Decimal) scan(r io.ByteScanner, base int) (f *Decimal, b int, err error
 	// exp2 != 0
 
 	// // apply 2**exp2
-	p := new(Decimal).SetPrec(z.Prec() + _DW) // use more bits for p -- TODO(db47h) what is the right number?
+	// 2**|exp2| must be exact whenever the result is representable: that needs
+	// up to as many digits as the scanned mantissa has, plus those of the result.
+	p := new(Decimal).SetPrec(z.Prec() + uint(len(z.mant))*_DW + _DW)
 	if exp2 < 0 {
 		z.Quo(z, p.pow2(uint64(-exp2)))
 	} else {
